@@ -1,0 +1,13 @@
+//go:build verif
+
+package engine
+
+// ZZSchedulePoint, when set by a verification harness, is called by every worker
+// right before it delivers its batch result; it may block to force an arrival order.
+var ZZSchedulePoint func(batchIndex int)
+
+func schedulePoint(batchIndex int) {
+	if ZZSchedulePoint != nil {
+		ZZSchedulePoint(batchIndex)
+	}
+}
